@@ -193,8 +193,9 @@ Ingress(p, internal, VH(_, _, _, _, _), VS(_)) ==
     THEN [k |-> IF vcur THEN "ok" ELSE "vfail", cls |-> "ok", act |-> "egress", eif |-> TravelEg(hop1, inf1),
           iif |-> iif, alert |-> alert, p |-> commit(p), calls |-> c1]
     ELSE  \* segment change; hop h+1 exists because ~final
-      IF si.seg + 1 >= NInf(p.sl) THEN ErrRes(p, "info_oob")
-      ELSE IF ~PtrFits(h + 1) THEN ErrRes(p, "hop_oob")
+      \* (the validator has already been shown the current hop field when these two fail)
+      IF si.seg + 1 >= NInf(p.sl) THEN [ErrRes(p, "info_oob") EXCEPT !.calls = c1]
+      ELSE IF ~PtrFits(h + 1) THEN [ErrRes(p, "hop_oob") EXCEPT !.calls = c1]
       ELSE
         LET nh == p.hop[h + 2]
             ni == p.inf[si.seg + 2]
